@@ -1,11 +1,11 @@
 SPECIFICATION Spec
 CONSTANTS
-  NP = 2
-  NV = 2
+  NP = 3
+  NV = 1
   NPA = 2
-  PageVals <- PagesFull
+  PageVals <- PagesTwo
   Offs = {0, 4095}
-  Snapshots = FALSE
+  Snapshots = TRUE
 VIEW View
 ACTION_CONSTRAINT Emit
 INVARIANT TypeOK
